@@ -98,9 +98,11 @@ def schemas(depth=3):
     @st.composite
     def array(draw):
         s = {"type": "array"}
-        kind = draw(st.sampled_from(["items", "items", "prefix", "prefix+items", "prefix+false", "bare"]))
+        kind = draw(st.sampled_from(["items", "items", "items", "prefix", "prefix+items", "prefix+items", "prefix+false", "bare", "false"]))
         if kind == "items":
             s["items"] = draw(sub)
+        elif kind == "false":
+            s["items"] = False        # only the empty array
         elif kind.startswith("prefix"):
             s["prefixItems"] = draw(st.lists(sub, min_size=1, max_size=3))
             if kind == "prefix+items":
@@ -117,7 +119,7 @@ def schemas(depth=3):
                     s.pop("items")
         if draw(st.booleans()):
             lo = draw(st.integers(0, 2))
-            if draw(st.booleans()):
+            if draw(st.booleans()) and not (s.get("items") is False and "prefixItems" not in s):
                 s["minItems"] = lo
             if draw(st.booleans()):
                 s["maxItems"] = lo + draw(st.integers(0, 2))
@@ -199,7 +201,7 @@ def instance_for(s, depth=0):
         pre = s.get("prefixItems") or []
         items = s.get("items")
         parts = [instance_for(p, depth + 1) for p in pre]
-        rest = st.lists(instance_for(items, depth + 1) if isinstance(items, dict) else JSON_SCALARS, max_size=0 if items is False else 3)
+        rest = st.lists(instance_for(items, depth + 1) if isinstance(items, dict) else JSON_SCALARS, max_size=1 if items is False else 3)   # (an item where none is allowed: the type has to refuse it)
         base = st.tuples(st.tuples(*parts), rest).map(lambda t: list(t[0]) + t[1])
         if s.get("uniqueItems"):
             dups = st.sampled_from([[[1, 2], [1.0, 2]], [{"a": 1, "b": 2}, {"b": 2, "a": 1}], [[1], [1]], [1, 1.0], [1, True], ["a", "a"], [{"a": 1}, {"a": 2}], [[1], [2]]])
@@ -340,6 +342,10 @@ def run_case(case):
                     rank = 2
                 elif leaf.validator in ("minProperties", "maxProperties"):
                     rank = 3
+                elif leaf.validator == "oneOf" and not leaf.context:
+                    # "valid under each of ...": the output satisfies several branches of a (nested) oneOf - the exclusive-or
+                    # short-cut let it through; the other branches of the enclosing oneOf fail as they should
+                    rank = 4
                 else:
                     continue
                 ranked.append((rank, leaf, ql))
@@ -368,6 +374,8 @@ def degenerate(s):
         for k in ("anyOf", "oneOf", "allOf"):
             if k in s and (not isinstance(s[k], list) or not s[k] or any(x == {} or not isinstance(x, dict) for x in s[k])):
                 return True
+        if s.get("items") is False and "prefixItems" not in s and s.get("minItems", 0) > 0:
+            return True
         for lo, hi in (("minProperties", "maxProperties"), ("minItems", "maxItems"), ("minLength", "maxLength")):
             if lo in s and hi in s and s[lo] > s[hi]:
                 return True
@@ -404,6 +412,16 @@ def _qual(schema, e):
     except Exception:
         return ""
     structural = set().union(*(FAMILIES[f] for f in ("numeric", "length", "pattern", "array", "object")))
+    # `items` next to `prefixItems` is translated into Options(addition=T) on the tuple type; a type's own options only count
+    # when it is called directly without caller options, so below an object property the extra items are not parsed at all
+    walk = schema
+    try:
+        for p in list(e.absolute_schema_path)[:-1]:
+            if p == "items" and isinstance(walk, dict) and "prefixItems" in walk:
+                return "/keywords-ignored:items-next-to-prefixItems"
+            walk = walk[p]
+    except Exception:
+        pass
     for n in nodes:
         if not isinstance(n, dict):
             continue
